@@ -155,7 +155,13 @@ func TestVerifC09(t *testing.T) {
 					unpaced = append(unpaced, job{w, rp, n, ato, cs, -1, "too-early", startS})
 					// paced requests with a non-zero start time for every representation (the pacing clock includes AST)
 					if k == 1 && ai == 2 && ato <= 3000 {
-						mustPaced = append(mustPaced, job{w, rp, n, ato, cs, 0, "at-availability", 1000}, job{w, rp, n + 1, ato, cs, ato / 3, "mid-way", 1_700_000_000})
+						mustPaced = append(mustPaced, job{w, rp, n, ato, cs, 0, "at-availability", 1000})
+						// the next segment may have another duration (alternating assets): its offset is taken from its own duration,
+						// an offset that leaves no chunk duration is outside the statement
+						_, vs2, ve2 := a.LiveSeg(a.Ref, n+1)
+						if ato2 := int64((ve2-vs2)*1000/a.Ref.Timescale) / 2; ato2 > 0 && ato2 <= 3000 {
+							mustPaced = append(mustPaced, job{w, rp, n + 1, ato2, cs, ato2 / 3, "mid-way", 1_700_000_000})
+						}
 					}
 				}
 			}
